@@ -4,3 +4,4 @@ cd "$(dirname "$0")"
 cp -n /repo/Cargo.lock harness/Cargo.lock 2>/dev/null || true
 ./build.sh
 ./build_c19.sh
+./build_types.sh quick
